@@ -5,22 +5,22 @@ PENDING_REASON = 'check under construction in this session: no verdict is claime
 DATA = {
     'C01': {
         'technique': "model extraction + path-sensitive abstract interpretation of Generator.visit_*; sibling cross-check against the validator's constraint table; symbolic bound entailment for every draw",
-        'text': "Necessary conditions decided for all reachable prop-sets and all paths: the generator consults every constraint the validator checks (or is provably exempt), every random_int/random_float draw has lo<=hi by structural entailment, grid bounds round inwards, value-first, kind agreement. Not decided: that concrete generated values validate for all RNG outcomes. A declared bound handed out as the value carries every kind the declaration admits for it (kinds read off the declaration's isinstance guards); if the validator demands on-grid floats the generator must return round(_, precision) on every path (GRID). The entry function it is stated through is nothing but the dispatch to the module-level visitor (VALIDATE-/GENERATE-/SUBSTITUTE-/REPRESENT-ENTRY). Every draw from a sequence has a non-empty sequence (DRAW-NONEMPTY); a returned props.value was stored unchanged by its producer (PAYLOAD-PINNED); no value is obtained by rounding a continuous draw.",
+        'text': "Necessary conditions decided for all reachable prop-sets and all paths: the generator consults every constraint the validator checks (or is provably exempt), every random_int/random_float draw has lo<=hi by structural entailment, grid bounds round inwards, value-first, kind agreement. Not decided: that concrete generated values validate for all RNG outcomes. A declared bound handed out as the value carries every kind the declaration admits for it (kinds read off the declaration's isinstance guards); if the validator demands on-grid floats the generator must return round(_, precision) on every path (GRID). The entry function it is stated through is nothing but the dispatch to the module-level visitor (VALIDATE-/GENERATE-/SUBSTITUTE-/REPRESENT-ENTRY). Every draw from a sequence has a non-empty sequence (DRAW-NONEMPTY); a returned props.value was stored unchanged by its producer (PAYLOAD-PINNED); no value is obtained by rounding a continuous draw. The regex generator keeps no state between or inside generate() calls (GENERATOR-STATELESS).",
         'note': "Trusted base: the checker's own resolver and abstract interpreter, the frozen idiom tables listed in DESIGN.md appendix A, and Python semantics as stated in DESIGN.md section 5. Satisfiable-schema axioms ax1-ax5 of DESIGN.md C01.",
     },
     'C02': {
         'technique': 'decision-table extraction from Validator.visit_* by abstract interpretation, compared with a frozen constraint table and between sibling validators',
-        'text': 'Each individual constraint is implemented as specified (type guard first, predicate, operator, error kind) under every prop subset; list-form classification is a partition; Validator/SubstitutorValidator/Substitutor agree on forms and window starts. Not decided: the verdict as a function (window arithmetic, nesting). The entry function it is stated through is nothing but the dispatch to the module-level visitor (VALIDATE-/GENERATE-/SUBSTITUTE-/REPRESENT-ENTRY). An accepted refinement stores its argument on every path (DECL-STORES); every present member of a container is dispatched to (MEMBER-VISITED); the result accumulator is exact for every operation sequence of length <= 3.',
+        'text': 'Each individual constraint is implemented as specified (type guard first, predicate, operator, error kind) under every prop subset; list-form classification is a partition; Validator/SubstitutorValidator/Substitutor agree on forms and window starts. Not decided: the verdict as a function (window arithmetic, nesting). The entry function it is stated through is nothing but the dispatch to the module-level visitor (VALIDATE-/GENERATE-/SUBSTITUTE-/REPRESENT-ENTRY). An accepted refinement stores its argument on every path (DECL-STORES); every present member of a container is dispatched to (MEMBER-VISITED); the result accumulator is exact for every operation sequence of length <= 3. A member is visited with the caller\'s context only (MEMBER-CTX).',
         'note': "Trusted base: the checker's own resolver and abstract interpreter, the frozen idiom tables listed in DESIGN.md appendix A, and Python semantics as stated in DESIGN.md section 5. The frozen constraint table is transcribed from the property statement.",
     },
     'C03': {
         'technique': 'typestate (PathHolder ownership) + def-use provenance of error-constructor arguments over all interpreter paths',
-        'text': "Every error construction receives the current path and value; every member descent pairs value[k] with deepcopy(path)[k]; PathHolders are only indexed when owned; error facts are the guard's operands; each error's format() reaches the Formatter method of its class, reads only attributes its __init__ sets, renders error.path and never indexes it in place (abstract evaluation of format() on an instance built from symbolic arguments). Decided for every construction and descent site on every path. The entry function it is stated through is nothing but the dispatch to the module-level visitor (VALIDATE-/GENERATE-/SUBSTITUTE-/REPRESENT-ENTRY).",
+        'text': "Every error construction receives the current path and value; every member descent pairs value[k] with deepcopy(path)[k]; PathHolders are only indexed when owned; error facts are the guard's operands; each error's format() reaches the Formatter method of its class, reads only attributes its __init__ sets, renders error.path and never indexes it in place (abstract evaluation of format() on an instance built from symbolic arguments). Decided for every construction and descent site on every path. The entry function it is stated through is nothing but the dispatch to the module-level visitor (VALIDATE-/GENERATE-/SUBSTITUTE-/REPRESENT-ENTRY). The two 'missing child' messages name the error's path extended by the child on every path (FORMAT-CHILD).",
         'note': "Trusted base: the checker's own resolver and abstract interpreter, the frozen idiom tables listed in DESIGN.md appendix A, and Python semantics as stated in DESIGN.md section 5. th.PathHolder indexing mutates in place (documented dependency behaviour).",
     },
     'C04': {
         'technique': 'abstract interpretation of Substitutor.visit_* on token tables and list shapes (table-transformer laws)',
-        'text': "Pin is the caller's value; every dict key and list position of the original is carried; any() is never left empty; generator and validator honour `value`. Not decided: that the chosen window is the right one on concrete values. A key of the value that a table does not declare is refused (test over all keys on the path, or an extra-key row in the pre-validation of that very table); the conversion contract of from_native (C14 ARM/FINAL) is re-derived here (NATIVE-CONTRACT). The entry function it is stated through is nothing but the dispatch to the module-level visitor (VALIDATE-/GENERATE-/SUBSTITUTE-/REPRESENT-ENTRY).",
+        'text': "Pin is the caller's value; every dict key and list position of the original is carried; any() is never left empty; generator and validator honour `value`. Not decided: that the chosen window is the right one on concrete values. A key of the value that a table does not declare is refused (test over all keys on the path, or an extra-key row in the pre-validation of that very table); the conversion contract of from_native (C14 ARM/FINAL) is re-derived here (NATIVE-CONTRACT). The entry function it is stated through is nothing but the dispatch to the module-level visitor (VALIDATE-/GENERATE-/SUBSTITUTE-/REPRESENT-ENTRY). Every returned container was pre-validated on its own path (CONTAINER-VALIDATED).",
         'note': "Trusted base: the checker's own resolver and abstract interpreter, the frozen idiom tables listed in DESIGN.md appendix A, and Python semantics as stated in DESIGN.md section 5. ",
     },
     'C05': {
@@ -45,12 +45,12 @@ DATA = {
     },
     'C09': {
         'technique': 'abstract evaluation of the opcode/category dispatchers on every constant of the sre universe + constant evaluation of category alphabets + bound entailment for repeat draws + range-coverage of negated classes',
-        'text': "Opcode and category dispatch end in a raise, supported set handled, must-refuse set never handled silently, no handler swallows the refusal, children flow into recursion, repeat bounds ordered, alphabets are subsets of their category. Not decided: full match of composed patterns. Only the parser's open-bound sentinel MAXREPEAT may be replaced by the cap (OPEN-SENTINEL); the validator matches the declared pattern itself, not a string-edited copy (VALIDATOR-PATTERN). Every sequence a character is drawn from is non-empty (DRAW-NONEMPTY).",
+        'text': "Opcode and category dispatch end in a raise, supported set handled, must-refuse set never handled silently, no handler swallows the refusal, children flow into recursion, repeat bounds ordered, alphabets are subsets of their category. Not decided: full match of composed patterns. Only the parser's open-bound sentinel MAXREPEAT may be replaced by the cap (OPEN-SENTINEL); the validator matches the declared pattern itself, not a string-edited copy (VALIDATOR-PATTERN). Every sequence a character is drawn from is non-empty (DRAW-NONEMPTY). A character taken from outside the alphabet (fallback of an exhausted negated class) is tested against the categories as the regex engine defines them and against the whole of each range (FALLBACK-EXACT).",
         'note': "Trusted base: the checker's own resolver and abstract interpreter, the frozen idiom tables listed in DESIGN.md appendix A, and Python semantics as stated in DESIGN.md section 5. sre node schema of the analysing interpreter (3.12) read from re._constants as data.",
     },
     'C10': {
         'technique': 'exception-escape analysis + extracted declaration automaton (all states x all method shapes)',
-        'text': "Only DeclarationError escapes any refinement method; redeclaration is rejected in every state; every value-independent constraint is cross-checked against a fixed value with a predicate at least as strong as the validator's. Not decided: value-dependent corners (NaN). Every kind the declaration admits for a fixed value passes the validator's type check (VALCHK-KIND). The validator's own checks of a fixed value are made at declaration (VALCHK-SELF); `schema | x` raises DeclarationError for a non-schema (OPERATORS).",
+        'text': "Only DeclarationError escapes any refinement method; redeclaration is rejected in every state; every value-independent constraint is cross-checked against a fixed value with a predicate at least as strong as the validator's. Not decided: value-dependent corners (NaN). Every kind the declaration admits for a fixed value passes the validator's type check (VALCHK-KIND). The validator's own checks of a fixed value are made at declaration (VALCHK-SELF); `schema | x` raises DeclarationError for a non-schema (OPERATORS). An empty element list is a declaration of zero members for len / min_len / max_len (VALCHK-ELEMENTS).",
         'note': "Trusted base: the checker's own resolver and abstract interpreter, the frozen idiom tables listed in DESIGN.md appendix A, and Python semantics as stated in DESIGN.md section 5. ",
     },
     'C11': {
@@ -80,12 +80,12 @@ DATA = {
     },
     'C16': {
         'technique': 'dispatch-chain forwarding analysis: fallback -> visit -> __d42_*__ -> user hook, and only-through-__accept__ member use',
-        'text': "Members are reached only through __accept__ (no class-specific branch); the fallback chain passes the named context (value, path, indent) and agrees on hook names in all four visitors. What the custom hook returns is the visitor's answer: nothing is checked, changed or refused after it (TRANSPARENT). CustomSchema's own hooks keep nothing on the instance; a caller-supplied path reaches the user hook unchanged (also when it is the falsy root path).",
+        'text': "Members are reached only through __accept__ (no class-specific branch); the fallback chain passes the named context (value, path, indent) and agrees on hook names in all four visitors. What the custom hook returns is the visitor's answer: nothing is checked, changed or refused after it (TRANSPARENT). CustomSchema's own hooks keep nothing on the instance; a caller-supplied path reaches the user hook unchanged (also when it is the falsy root path). The keyword set that reaches a user hook is the caller's; the hook's answer is returned unchanged on every path (TRANSPARENT, three links).",
         'note': "Trusted base: the checker's own resolver and abstract interpreter, the frozen idiom tables listed in DESIGN.md appendix A, and Python semantics as stated in DESIGN.md section 5. ",
     },
     'C17': {
         'technique': 'entropy-source table over the call-graph closure of generate + order-dependence taint (set -> order-sensitive consumer)',
-        'text': "Whole property modulo CPython's random: all entropy is the seeded module generator, clock/uuid sites only where exempt, no hash-order dependence, no hidden state. A dict filled inside a loop over a set is an order-sensitive consumer; findings are keyed by owner class, normalised set expression and consumer. The entry function it is stated through is nothing but the dispatch to the module-level visitor (VALIDATE-/GENERATE-/SUBSTITUTE-/REPRESENT-ENTRY).",
+        'text': "Whole property modulo CPython's random: all entropy is the seeded module generator, clock/uuid sites only where exempt, no hash-order dependence, no hidden state. A dict filled inside a loop over a set is an order-sensitive consumer; findings are keyed by owner class, normalised set expression and consumer. The entry function it is stated through is nothing but the dispatch to the module-level visitor (VALIDATE-/GENERATE-/SUBSTITUTE-/REPRESENT-ENTRY). set_seed hands the caller's seed to random.seed on every path (SET-SEED, per path).",
         'note': "Trusted base: the checker's own resolver and abstract interpreter, the frozen idiom tables listed in DESIGN.md appendix A, and Python semantics as stated in DESIGN.md section 5. random.seed determinism of CPython.",
     },
     'C18': {
@@ -95,7 +95,7 @@ DATA = {
     },
     'C19': {
         'technique': "static import resolution of every mapping target against /repo's binding tables + abstract interpretation of rewrite_imports (one symbolic statement, one symbolic alias): path conditions at the recording of a replacement, the recorded text as a symbolic string, the spliced value",
-        'text': "Clause 1 whole: every mapping target resolves to a definition in /repo. Rewriter: name-preserving, only top-level absolute from-imports are recorded, mapped names emitted from their mapping target, unmapped names from their original module, aliases kept, splice keeps prefix/suffix of shared lines (byte offsets, read at application time). Not decided: output validity for all programs. The line table is cut at the tokenizer's line ends (LINE-TABLE); `nothing to do` is decided on the parsed module (NOTHING-TO-DO).",
+        'text': "Clause 1 whole: every mapping target resolves to a definition in /repo. Rewriter: name-preserving, only top-level absolute from-imports are recorded, mapped names emitted from their mapping target, unmapped names from their original module, aliases kept, splice keeps prefix/suffix of shared lines (byte offsets, read at application time). Not decided: output validity for all programs. The line table is cut at the tokenizer's line ends (LINE-TABLE); `nothing to do` is decided on the parsed module (NOTHING-TO-DO). Every spliced line that is followed by another one carries its own terminator (SPLICE-TERMINATED).",
         'note': "Trusted base: the checker's own resolver and abstract interpreter, the frozen idiom tables listed in DESIGN.md appendix A, and Python semantics as stated in DESIGN.md section 5. Python import semantics for absolute from-imports.",
     },
 }
